@@ -21,4 +21,5 @@ def units():
     rec = [Unit("ellipse_recur_delta%d" % k, P + "ellipse_recur_delta%d" % k, ["Layer::elliptical_cone_coverage_recur", "(tag stubs) nested::get_or_create, Layer::center, Layer::vertices", "(arbitrary-answer stubs) EllipticalCone::{contains_cone,contains,overlap_cone}", "(contract stub) BMOCBuilderUnsafe::{new,push}"],
                 "elliptical descent contract, requested depth = start + %d, EVERY assignment of the geometric answers (21-cell tree): a deepest cell is full iff contains_cone answered on its path or it was reached with its 4 vertices contained; partial iff reached and not full; absent otherwise; pushes ordered; threshold index = recursion level" % k,
                 timeout=1500, mem_gb=8, level="B", bound="depth difference %d" % k, extra=dict(no_native=True)) for k in (0, 1, 2)]
-    return rec + small + [Unit("ellipse_guard_must_panic", P + "ellipse_guard_must_panic", ["Layer::elliptical_cone_coverage_internal"], "a >= pi/2 rejected by a panic on every path, every depth", kind="must_panic", allowed_fail=[r"Unable to handle ellipses"], timeout=600)]
+    probe = [Unit('sort_stub_probe', P + 'sort_stub_probe', ['x'], 'probe', timeout=300)]
+    return probe + rec + small + [Unit("ellipse_guard_must_panic", P + "ellipse_guard_must_panic", ["Layer::elliptical_cone_coverage_internal"], "a >= pi/2 rejected by a panic on every path, every depth", kind="must_panic", allowed_fail=[r"Unable to handle ellipses"], timeout=600)]
